@@ -9,28 +9,28 @@ META = {
     "technique": "Lean 4 theorems over all code-unit strings, all model values and all arrays (Memory::Sort model with an abstract comparator) + model/implementation correspondence on exhaustive small domains + the Lean order/sort predicates evaluated on the C++ results",
     "level": "proof",
     "design_ref": "DESIGN.md §6 C15, notes/design-order.md",
-    "text": "Kernel-checked: for every pair/triple of strings IsLess/IsGreater/IsEqual and the six String/StringView operators are a strict linear order (trichotomy, duality, <= and >= as unions, transitivity) that is lexicographic by code unit with a proper prefix first; the cursor models never read out of range. For values: <= / >= are the unions for every pair; exactly one of <,==,> for every NaN-free pair; duality and transitivity for operands of equal pointer nesting (the full statement is refuted on ptr->\"s\" vs {} and on NaN). Memory::Sort (Lomuto scheme as coded) returns, for any comparison that is asymmetric and transitive on the elements present, a List.Perm of the input with no later element before an earlier one, with fuel = length and no out-of-range access; corollaries for Array<String>, object keys, Array<Value> ascending and descending.",
+    "text": "Kernel-checked: for every pair/triple of strings IsLess/IsGreater/IsEqual and the six String/StringView operators are a strict linear order (trichotomy, duality, <= and >= as unions, transitivity) that is lexicographic by code unit with a proper prefix first; the cursor models never read out of range. For values (pointer operands dereferenced on both sides since 73c896c): <= / >= are the unions, duality and every transitivity instance hold for every pair/triple; exactly one of <,==,> for every NaN-free pair (refuted on the NaN witness). Memory::Sort (Lomuto scheme as coded) returns, for any comparison that is asymmetric and transitive on the elements present, a List.Perm of the input with no later element before an earlier one, with fuel = length and no out-of-range access; corollaries for Array<String>, object keys with lookups preserved, and Array<Value> ascending and descending for every array (a <=/>= chain when NaN-free).",
     "note": "Trusted: Lean kernel; axioms ⊆ {propext, Quot.sound, Classical.choice}; g++ as translator of enum ValueType; the correspondence harness (ASan/UBSan, exact-size buffers). A double is modelled by the monotone integer key of its bit pattern (None for NaN); the hash-chain rebuild after HArray::Sort is not modelled here (C13) — lookups after Sort are checked on the real code for every key.",
 }
 
 THEOREMS = ["Qentem.Props.C15." + t for t in [
     "str_consistent", "str_trichotomy", "str_lt_gt_dual", "str_le_ge_dual", "str_dual", "str_le_iff", "str_ge_iff",
     "str_ne_iff", "str_eq_iff_eq", "str_lt_trans", "str_trans", "str_lt_iff_lex", "str_prefix_lt", "str_cursor_model",
-    "value_order_laws_false", "value_nan_not_consistent", "val_lt_pointer_right", "val_lt_pointer_left", "val_le_iff", "val_ge_iff", "val_consistent_partial",
-    "val_gt_eq_lt_swap", "val_eq_comm", "val_dual_partial", "val_lt_trans_partial", "val_trans_partial",
-    "val_eq_iff_partial", "fixed_consistent", "fixed_dual", "fixed_trans", "fixed_agrees_on_equal_nesting", "val_lt_irrefl",
-    "val_lt_same_kind", "val_lt_cross_kind", "value_type_ranks",
-    "sort_ordered_permutation", "sort_strict_weak_order", "sort_segment", "str_lt_strict", "str_gt_strict", "string_sort_ascending",
-    "string_sort_descending", "object_sort_lookup", "val_lt_strict", "val_gt_strict", "value_sort_ordered_false", "value_sort_partial",
-    "value_sort_le_chain_partial", "oracle_permutation_sound", "oracle_ordered_sound", "oracle_chain_sound",
+    "val_compare_targets", "val_le_iff", "val_ge_iff", "val_gt_eq_lt_swap", "val_eq_comm", "val_dual", "val_lt_trans",
+    "val_lt_irrefl", "val_trans", "value_nan_not_consistent", "value_trichotomy_false", "val_consistent_partial",
+    "val_eq_imp", "val_eq_iff_partial", "val_lt_same_kind", "val_lt_cross_kind", "value_type_ranks",
+    "sort_ordered_permutation", "sort_strict_weak_order", "sort_segment", "str_lt_strict", "str_gt_strict",
+    "string_sort_ascending", "string_sort_descending", "object_sort_lookup", "val_lt_strict", "val_gt_strict",
+    "value_sort", "value_sort_chain_false", "value_sort_chain_partial",
+    "oracle_permutation_sound", "oracle_ordered_sound", "oracle_chain_sound",
 ]]
 
-OPEN = ["Qentem.Props.C15.ValueOrderLaws (false on the current code: pointer operand facing a shallower nesting; NaN) — proved under depth/noNaN hypotheses",
-        "Qentem.Props.C15.ValueSortOrdered (false for arrays mixing pointer nestings or holding NaN) — proved for one nesting"]
+OPEN = ["Qentem.Props.C15.ValueTrichotomy (false on the current code for a NaN real) — proved for NaN-free pairs",
+        "Qentem.Props.C15.ValueSortChain (false for arrays holding NaN) — proved for NaN-free arrays; the 'no later element before an earlier one' form holds for every array"]
 
-# Classes of operands for which the current code breaks the law (confirmed, see notes/findings-order.txt).
-K_PTR = "pointer-right-operand-not-dereferenced"
+# Keys of the two findings listed in known-findings.txt (ctx.finish prints them as KNOWN-FINDING).
 K_NAN = "nan-real-unordered"
+K_DEPTH = "sort-stack-depth-on-sorted-input"
 
 ZOO = ["u", "t", "f", "z",
        "n0", "n1", "n2", "n18446744073709551615", "n9223372036854775808",
@@ -60,51 +60,14 @@ def is_nan(tok):
 
 
 def known_class(toks):
-    """Finding key if the operands fall in a class where the law is known to fail, else None."""
+    """Finding key if the operands fall in the class where the law is known to fail (NaN), else None."""
     if any(is_nan(t) for t in toks):
         return K_NAN
-    if len(set(depth(t) for t in toks)) > 1:
-        return K_PTR
     return None
 
 
 def stok(u):
     return ".".join(str(x) for x in u) if u else "e"
-
-
-def proposed_findings():
-    res = {}
-    fn = os.path.join(core.VERIF, "notes", "findings-order.txt")
-    if os.path.exists(fn):
-        for ln in open(fn):
-            m = re.match(r"finding:\s+property=C15\s+key=(\S+)\s*(.*)", ln.strip())
-            if m:
-                res[m.group(1)] = m.group(2)
-    return res
-
-
-class Reporter:
-    """ctx.fail for anything not listed; keys listed only in notes/findings-order.txt (proposed, not yet merged into
-    known-findings.txt, which this module must not edit) are printed as KNOWN-FINDING and do not fail the run."""
-
-    def __init__(self, ctx):
-        self.ctx = ctx
-        self.official = core.load_findings().get("C15", {})
-        self.proposed = proposed_findings()
-        self.seen = {}
-
-    def fail(self, key, text, replay):
-        if key in self.official or key not in self.proposed:
-            self.ctx.fail(key, text, replay)
-            return
-        if key not in self.seen:
-            self.seen[key] = 0
-            print("KNOWN-FINDING: property=C15 %s (%s; proposed in notes/findings-order.txt) e.g. %s" % (self.proposed[key], key, text[:200]), flush=True)
-        self.seen[key] += 1
-
-    def done(self):
-        for k, n in self.seen.items():
-            self.ctx.notes.append("proposed finding %s: %d witnesses this run" % (k, n))
 
 
 def run_both(ctx, exe, drv, stream, lines, nontrivial=None):
@@ -122,7 +85,7 @@ def oracle(ctx, drv, olines):
 
 
 # ------------------------------------------------------------------------------------------------
-def strings_stage(ctx, rep, exe, drv):
+def strings_stage(ctx, exe, drv):
     rng = ctx.rng
     small = [list(t) for n in range(0, 5) for t in itertools.product([97, 98], repeat=n)]          # 31 strings
     withnul = [list(t) for n in range(0, 4) for t in itertools.product([0, 97, 98], repeat=n)]      # 40 strings
@@ -197,12 +160,12 @@ def strings_stage(ctx, rep, exe, drv):
     verdicts = oracle(ctx, drv, olines)
     for v, m, ol in zip(verdicts, meta, olines):
         if v != "ok":
-            rep.fail("string-order:" + v, "order law '%s' fails on the implementation's answers for %s (%s)" % (v, m, ol), {"operands": m, "oracle_line": ol})
+            ctx.fail("string-order:" + v, "order law '%s' fails on the implementation's answers for %s (%s)" % (v, m, ol), {"operands": m, "oracle_line": ol})
     ctx.count("string-order-oracle", len(olines), len(set(zip(olines, meta))))
 
 
 # ------------------------------------------------------------------------------------------------
-def values_stage(ctx, rep, exe, drv):
+def values_stage(ctx, exe, drv):
     rng = ctx.rng
     lines = ["ordval %s %s" % (a, b) for a in ZOO for b in ZOO]
     corpus = os.path.join(core.VERIF, "corpus", "C15", "values.txt")
@@ -221,7 +184,7 @@ def values_stage(ctx, rep, exe, drv):
     if ctx.thorough:
         trip = list(itertools.product(ZOO, repeat=3))
     else:
-        clean = [z for z in ZOO if known_class([z, "u"]) is None][::2]
+        clean = [z for z in ZOO if known_class([z]) is None][::2]
         trip = list(itertools.product(clean, repeat=3)) + [tuple(rng.choice(ZOO) for _ in range(3)) for _ in range(12000)]
     for a, b, c in trip:
         olines.append("ordoracletri %s %s %s" % (res[(a, b)], res[(b, c)], res[(a, c)])); meta.append((a, b, c))
@@ -229,7 +192,7 @@ def values_stage(ctx, rep, exe, drv):
     for v, m, ol in zip(verdicts, meta, olines):
         if v != "ok":
             key = known_class(list(m)) or ("value-order:" + v)
-            rep.fail(key, "order law '%s' fails on the implementation's answers for values %s (%s)" % (v, " ".join(m), ol), {"operands": list(m), "oracle_line": ol})
+            ctx.fail(key, "order law '%s' fails on the implementation's answers for values %s (%s)" % (v, " ".join(m), ol), {"operands": list(m), "oracle_line": ol})
     ctx.count("value-order-oracle", len(olines), len(set(meta)))
 
 
@@ -250,7 +213,7 @@ def gen_ops(rng, keys, n):
     return ops
 
 
-def sorts_stage(ctx, rep, exe, drv):
+def sorts_stage(ctx, exe, drv):
     rng = ctx.rng
     T = ctx.thorough
     # ---- arrays of values
@@ -265,7 +228,7 @@ def sorts_stage(ctx, rep, exe, drv):
                 lst = ",".join(t) if t else "-"
                 for asc in "10":
                     lines.append("%s %s %s" % ("ordsortv" if (len(t) + int(asc)) % 2 else "ordsorta", asc, lst))
-    clean = [z for z in ZOO if known_class([z, "u"]) is None]
+    clean = [z for z in ZOO if known_class([z]) is None]
     for _ in range(1500 if not T else 120000):
         n = rng.randrange(0, 60)
         r = rng.random()
@@ -291,7 +254,7 @@ def sorts_stage(ctx, rep, exe, drv):
         if v != "ok":
             toks = [] if l.split(" ")[2] == "-" else l.split(" ")[2].split(",")
             key = (v in ("not-ordered", "not-a-chain") and known_class(toks)) or ("sort:" + v)
-            rep.fail(key, "Sort result is '%s' (by the implementation's own comparisons): %s -> %s" % (v, l, ol.split(" ")[2]), {"line": l, "impl_output": ol.split(" ")[2]})
+            ctx.fail(key, "Sort result is '%s' (by the implementation's own comparisons): %s -> %s" % (v, l, ol.split(" ")[2]), {"line": l, "impl_output": ol.split(" ")[2]})
     ctx.count("value-array-sort-oracle", len(olines), len(set(olines)))
 
     # ---- arrays of strings
@@ -323,7 +286,7 @@ def sorts_stage(ctx, rep, exe, drv):
         olines.append("ordoraclesort %s %s" % (t[3], o)); meta.append(l)
     for v, l, ol in zip(oracle(ctx, drv, olines), meta, olines):
         if v != "ok":
-            rep.fail("sort:" + v, "Array<String>::Sort result is '%s': %s -> %s" % (v, l, ol.split(" ")[2]), {"line": l, "impl_output": ol.split(" ")[2]})
+            ctx.fail("sort:" + v, "Array<String>::Sort result is '%s': %s -> %s" % (v, l, ol.split(" ")[2]), {"line": l, "impl_output": ol.split(" ")[2]})
     ctx.count("string-array-sort-oracle", len(olines), len(set(olines)))
 
     # ---- objects / hash arrays (keys sorted, removed members, lookups afterwards)
@@ -353,13 +316,13 @@ def sorts_stage(ctx, rep, exe, drv):
             ctx.fail("object-sort-output", "unexpected harness output %s for %s" % (o, l), {"line": l})
             continue
         if t[4] != "lookups-ok":
-            rep.fail("lookup-after-sort", "after Sort a lookup by key is wrong (%s): %s" % (t[4], l), {"line": l, "impl_output": o})
+            ctx.fail("lookup-after-sort", "after Sort a lookup by key is wrong (%s): %s" % (t[4], l), {"line": l, "impl_output": o})
         if "~dirty" in o:
-            rep.fail("removed-slot-not-cleared", "a removed slot still holds a key/value: %s -> %s" % (l, o), {"line": l, "impl_output": o})
+            ctx.fail("removed-slot-not-cleared", "a removed slot still holds a key/value: %s -> %s" % (l, o), {"line": l, "impl_output": o})
         olines.append("ordoraclesort %s %s %s %s" % (t[0], t[1], t[2], t[3])); meta.append(l)
     for v, l, ol in zip(oracle(ctx, drv, olines), meta, olines):
         if v != "ok":
-            rep.fail("sort:" + v, "object Sort result is '%s': %s -> %s" % (v, l, ol), {"line": l, "oracle_line": ol})
+            ctx.fail("sort:" + v, "object Sort result is '%s': %s -> %s" % (v, l, ol), {"line": l, "oracle_line": ol})
     ctx.count("object-sort-oracle", len(olines), len(set(olines)))
 
     # ---- template loop sort= attribute renders the sorted copy
@@ -376,18 +339,18 @@ def sorts_stage(ctx, rep, exe, drv):
     olines = ["ordoracleloop %s %s %s" % (l.split(" ")[1], l.split(" ")[2], o) for l, o in zip(lines, impl) if not o.startswith("FAULT") and o != "bad-op"]
     for v, ol in zip(oracle(ctx, drv, olines), olines):
         if v != "ok":
-            rep.fail("loop-sort:" + v, "<loop sort=...> output is '%s': %s" % (v, ol), {"oracle_line": ol})
+            ctx.fail("loop-sort:" + v, "<loop sort=...> output is '%s': %s" % (v, ol), {"oracle_line": ol})
     ctx.count("loop-sort-oracle", len(olines), len(set(olines)))
 
 
-def depth_stage(ctx, rep, exe):
+def depth_stage(ctx, exe):
     """Observation on the real code only: recursion depth n of Memory::Sort on sorted input (not modelled)."""
     n = 4000 if not ctx.thorough else 30000
     lines = ["orddeep %d %d %d" % (n, r, a) for r in (0, 1) for a in (0, 1)]
     out, faults = core.run_lines(exe, lines)
     for l, o in zip(lines, out):
         if o != "ok":
-            rep.fail("sort-stack-depth-on-sorted-input", "Array<SizeT>::Sort on %s: %s" % (l, o), {"line": l, "impl_output": o})
+            ctx.fail(K_DEPTH, "Array<SizeT>::Sort on %s: %s" % (l, o), {"line": l, "impl_output": o})
     ctx.count("sort-depth-observation", len(lines), len(lines), sample={"stream": "sort-depth-observation", "input": lines[0], "impl": out[0]})
     ctx.notes.append("Memory::Sort recursion depth %d on sorted/reversed input tolerated by the harness build (observation; depth is not modelled)" % n)
 
@@ -424,19 +387,17 @@ def run(ctx):
     exe = ctx.build_harness("order_harness.cpp")
     if not (drv and exe):
         return
-    rep = Reporter(ctx)
     if getattr(ctx, "replay", None):
         replay_stage(ctx, exe, drv)
         return
-    strings_stage(ctx, rep, exe, drv)
-    values_stage(ctx, rep, exe, drv)
-    sorts_stage(ctx, rep, exe, drv)
-    depth_stage(ctx, rep, exe)
-    rep.done()
+    strings_stage(ctx, exe, drv)
+    values_stage(ctx, exe, drv)
+    sorts_stage(ctx, exe, drv)
+    depth_stage(ctx, exe)
     ctx.assumptions += [
         "code units modelled as Nat; for the signed `char` build a unit u is ordered as (u+128) mod 256 (stream ordstrs)",
         "a double is modelled by the monotone integer key of its IEEE-754 bit pattern (NaN = none); tied by the value zoo (±0, denormals, extremes, ±inf, NaN)",
-        "value laws are proved for operands of equal pointer nesting and without NaN; outside that class the current code breaks them (proposed findings)",
+        "trichotomy and the <=-chain form of 'sorted' are proved for NaN-free values only; a NaN real breaks them on the real code (finding nan-real-unordered)",
         "recursion depth of Memory::Sort (O(n) stack on sorted input) is not exhibited by the model",
     ]
 
